@@ -64,7 +64,7 @@ func (a Int64) ConvertConstScalar(t ScalarType) ConstScalar {
   case Int64Type:
     return a
   default:
-    return NewConstScalar(t, a.GetFloat64())
+    return convertConstScalar(a, t)
   }
 }
 func (a Int64) ConvertScalar(t ScalarType) Scalar {
